@@ -307,10 +307,12 @@ func runReplayCase(c *verdict.Ctx, idx int, tmp string) {
 		// head was rotated.  The state machine keeps what a successful replay would have restored (checked
 		// above); what changes is the WAL the later records go to and the next replay has to read through.
 		if r.Intn(3) == 0 {
+			rotated := false
 			if r.Intn(2) == 0 {
 				liveWAL.Group().RotateFile()
 				c.Count("replay.live_wal_rotated_before_restart", 1)
 				emptyHeadRestartAt[nd.CS.GetRoundState().Height] = true
+				rotated = true
 			}
 			_ = liveWAL.Stop()
 			liveWAL.Wait()
@@ -324,6 +326,15 @@ func runReplayCase(c *verdict.Ctx, idx int, tmp string) {
 			if err := w.Start(); err != nil {
 				c.HarnessError("restart live wal: %v", err)
 				return
+			}
+			// WALs written before BaseWAL.OnStart was repaired carry an "#ENDHEIGHT 0" at the top of a head that
+			// was empty at a restart; a replay of a later height has to read through such a marker
+			if rotated && nd.CS.GetRoundState().Height > cfg.InitialH && r.Intn(2) == 0 {
+				if err := w.WriteSync(cs.EndHeightMessage{Height: 0}); err != nil {
+					c.HarnessError("legacy marker: %v", err)
+					return
+				}
+				c.Count("replay.legacy_endheight0_in_the_middle_of_a_height", 1)
 			}
 			liveWAL = w
 			nd.CS.VerifSetWAL(w)
